@@ -9,6 +9,7 @@ wrapped for observation (attempt count), process hash seed (worker pools).
 """
 
 import collections
+import sys
 import os
 import io
 import copy
@@ -478,6 +479,26 @@ def gen_c14(r, clients):
             if of:
                 v['out_file'] = of
             ops.append(v)
+    seps = '\n\r\x0b\x0c\x1c\x1d\x1e\x85\u2028\u2029'
+    flines = [s for s in ex if s is not None and s != ''
+              and not any(c in s for c in seps)]
+    if r.chance(0.25) and flines:
+        # the `rexpy` command run twice in one process (a wrapper calling
+        # main()): first with flags on some other file, then plainly on
+        # these lines - which must give what the library gives for them
+        ops.append(variant('plain-list2', examples=flines, opts={},
+                           size=None, seed=None, group=2))
+        other = variant('cli-flagged', form='cli', examples=flines[:3],
+                        opts={}, size=None, seed=None,
+                        cli_flags=r.sample(['--header', '-g', '-u', '-q',
+                                            '--portable', '-vlf'],
+                                           r.randint(1, 3)),
+                        out_file='cli0.txt')
+        other.pop('group', None)
+        ops.append(other)
+        ops.append(variant('cli-plain', form='cli', examples=flines,
+                           opts={}, size=None, seed=None, cli_flags=[],
+                           out_file='cli1.txt', group=2))
     if r.chance(0.35):
         # the same strings as Pandas columns (pdextract takes no options, so
         # its list-form peer is a call with default options and sizes)
@@ -775,7 +796,9 @@ def call_extract(ctx, op, tag=None, as_object=False):
     ctx.simr.begin(op.get('rs'))
     ctx.attempts[0] = 0
     before = random.getstate()
-    if op['form'] == 'streams':
+    if op['form'] == 'cli':
+        ex = list(op['examples'])
+    elif op['form'] == 'streams':
         # one list object per op (or per stream_key): a caller that reads
         # its lines once and analyses them more than once
         held = ctx.__dict__.setdefault('stream_lists', {})
@@ -790,7 +813,25 @@ def call_extract(ctx, op, tag=None, as_object=False):
         ex = build_examples(op)
     ctx.last_input = ex
     try:
-        if op['form'] == 'series':
+        if op['form'] == 'cli':
+            inp = ctx.W.path('data', 'in_' + op['out_file'])
+            outp = ctx.W.path('data', op['out_file'])
+            with io.open(inp, 'w', encoding='utf-8', newline='\n') as f:
+                f.write(''.join(x + '\n' for x in ex))
+            saved_argv = sys.argv
+            sys.argv = ['rexpy'] + list(op.get('cli_flags') or []) + [inp,
+                                                                     outp]
+            try:
+                rexpy.main()
+            finally:
+                sys.argv = saved_argv
+            with io.open(outp, encoding='utf-8', newline='\n') as f:
+                t = f.read()
+            val = t.split('\n')[:-1] if t.endswith('\n') else t.split('\n')
+            if t == '':
+                val = []
+            ctx.stats['probes']['rexpy_command_run_in_process'] += 1
+        elif op['form'] == 'series':
             val = rexpy.pdextract(ex, seed=op.get('seed'))
         elif op['form'] == 'streams' and op.get('out_file') and not any(
                 c in x for x in ex if isinstance(x, str)
